@@ -678,7 +678,9 @@ class Polyhedron(Shape3D):
         points = self.vertices[1:] - self.vertices[0]
         half_point_lengths = np.sum(points * points, axis=1) / 2
         x, resids, _, _ = np.linalg.lstsq(points, half_point_lengths, None)
-        if len(self.vertices) > 4 and not np.isclose(resids, 0):
+        # The residual has units of length**4: use a tolerance relative to the size.
+        atol = 1e-8 * np.max(half_point_lengths) ** 2
+        if len(self.vertices) > 4 and not np.isclose(resids, 0, atol=atol):
             raise RuntimeError("No circumsphere for this polyhedron.")
 
         return Sphere(np.linalg.norm(x), x + self.vertices[0])
@@ -717,7 +719,9 @@ class Polyhedron(Shape3D):
         b = np.sum(self.normals * self.vertices[first_vertices], axis=-1)
         a = np.hstack((self.normals, np.ones((self.num_faces, 1))))
         x, resids, _, _ = np.linalg.lstsq(a, b, None)
-        if len(self.vertices) > 4 and not np.isclose(resids, 0):
+        # The residual has units of length**2: use a tolerance relative to the size.
+        extent = np.max(np.linalg.norm(self.vertices - self.vertices[0], axis=-1))
+        if len(self.vertices) > 4 and not np.isclose(resids, 0, atol=1e-8 * extent**2):
             raise RuntimeError("No insphere for this polyhedron.")
 
         return Sphere(x[3], x[:3])
